@@ -44,7 +44,7 @@ ASSUMPTIONS = ['netCDF4-python/libnetcdf store and return what they are '
                'given', 'an unlimited dimension not used by any variable is '
                'not representable in netCDF (its length is defined by data) '
                'and is not generated']
-BUDGET = {'quick': dict(examples=2400, max_s=300),
+BUDGET = {'quick': dict(examples=3600, max_s=300),
           'thorough': dict(examples=16000, max_s=3000)}
 
 CLASSIC = ('NETCDF3_CLASSIC', 'NETCDF3_64BIT_OFFSET', 'NETCDF4_CLASSIC')
